@@ -853,4 +853,67 @@ theorem storeOK_source {S : Store} (h : StoreOK S) :
   rw [List.pairwise_reverse]
   exact h3
 
+/-! ### blobs and the `prev` field -/
+
+/-- the blob files of the destination are exactly: one per source record that is a blob record
+    and whose file the source has — same (oid, tid), same content -/
+theorem mem_copyBlobs (isBlob : Bytes → Bool) (sb : Blobs) (src : List ITxn) (e : (Nat × Nat) × Bytes) :
+    e ∈ copyBlobs isBlob sb src ↔
+      ∃ t ∈ src, ∃ r ∈ t.recs, ∃ d, r.data = some d ∧ isBlob d = true ∧
+        loadBlob sb r.oid r.tid = some e.2 ∧ e.1 = (r.oid, r.tid) := by
+  unfold copyBlobs
+  simp only [List.mem_flatMap, List.mem_filterMap]
+  constructor
+  · rintro ⟨t, ht, r, hr, h⟩
+    refine ⟨t, ht, r, hr, ?_⟩
+    cases hd : r.data with
+    | none => simp [hd] at h
+    | some d =>
+      simp only [hd] at h
+      by_cases hb : isBlob d = true
+      · simp only [hb, if_true] at h
+        cases hl : loadBlob sb r.oid r.tid with
+        | none => simp [hl] at h
+        | some c =>
+          simp only [hl, Option.some.injEq] at h
+          subst h
+          exact ⟨d, rfl, hb, rfl, rfl⟩
+      · simp [hb] at h
+  · rintro ⟨t, ht, r, hr, d, hd, hb, hl, he⟩
+    refine ⟨t, ht, r, hr, ?_⟩
+    simp only [hd, hb, if_true, hl, Option.some.injEq]
+    exact Prod.ext he.symm rfl
+
+/-- what `restore` writes into the header: the oid, the source record's tid, and as `prev` the
+    position the index held (the newest committed record of the oid, `none` = 0) -/
+theorem restoreRec_fields {D : Store} {r : IRec} {x : Rec} (h : restoreRec D r = .ok x) :
+    x.oid = r.oid ∧ x.serial = r.tid ∧ x.prev = indexGet D r.oid := by
+  unfold restoreRec at h
+  split at h
+  · simp at h
+  · simp only [Except.ok.injEq] at h; subst h; exact ⟨rfl, rfl, rfl⟩
+  · split at h <;> (simp only [Except.ok.injEq] at h; subst h; exact ⟨rfl, rfl, rfl⟩)
+
+/-- the index entry designates the LAST record of the oid in the NEWEST transaction that has one -/
+theorem indexGet_spec {D : Store} {oid l i : Nat} (h : indexGet D oid = some (l, i)) :
+    ∃ newer t older, D = newer ++ t :: older ∧ l = older.length ∧
+      lastIdx oid (oids t) = some i ∧ ∀ n ∈ newer, lastIdx oid (oids n) = none := by
+  induction D with
+  | nil => simp [indexGet] at h
+  | cons t D ih =>
+    simp only [indexGet] at h
+    cases hl : lastIdx oid (oids t) with
+    | some j =>
+      simp only [hl, Option.some.injEq, Prod.mk.injEq] at h
+      obtain ⟨rfl, rfl⟩ := h
+      exact ⟨[], t, D, rfl, rfl, hl, by simp⟩
+    | none =>
+      simp only [hl] at h
+      obtain ⟨newer, t', older, h1, h2, h3, h4⟩ := ih h
+      refine ⟨t :: newer, t', older, by simp [h1], h2, h3, ?_⟩
+      intro n hn
+      rcases List.mem_cons.1 hn with hn | hn
+      · exact hn ▸ hl
+      · exact h4 n hn
+
 end Proofs.Copy
